@@ -31,9 +31,12 @@ import (
 	"go/parser"
 	"go/token"
 	"os"
+	"path/filepath"
 	"sort"
 	"strconv"
 	"strings"
+
+	"gtverif/internal/srcset"
 )
 
 type typ string
@@ -168,7 +171,8 @@ type funcInfo struct {
 
 type xl struct {
 	fset     *token.FileSet
-	file     *ast.File
+	files    []*ast.File // the files of the package that take part in the build (srcset)
+	fatal    []string    // problems of the package as a whole: the generated file is made uncompilable
 	funcs    map[string]*funcInfo
 	consts   map[string]string // name -> Coq literal
 	problems []string
@@ -1786,7 +1790,11 @@ func rewriteIndex(b *ast.BlockStmt, xs, i, obj *ast.Object) *ast.BlockStmt {
 func (x *xl) collect() {
 	x.funcs = map[string]*funcInfo{}
 	x.consts = map[string]string{}
-	for _, d := range x.file.Decls {
+	var decls []ast.Decl
+	for _, f := range x.files {
+		decls = append(decls, f.Decls...)
+	}
+	for _, d := range decls {
 		switch t := d.(type) {
 		case *ast.GenDecl:
 			for _, sp := range t.Specs {
@@ -1961,6 +1969,135 @@ func (x *xl) treeRecursive(fi *funcInfo) bool {
 	return ok
 }
 
+// packageChecks: what the translation of the three roots silently relies on, about the package as a
+// whole.  Each root is declared exactly once in the files that take part in the build; no init()
+// (it could change the working directory, the environment, flag defaults, package state); no
+// package variable besides Logger (translated code reads none; a variable would be state the model
+// does not have); no extra method on Generate with a pointer receiver (could mutate the flags).
+func (x *xl) packageChecks(pkg *srcset.Pkg) {
+	for _, r := range [][2]string{{"Generate", "Run"}, {"Generate", "findProtos"}, {"", "protoFileHasGoPackage"}} {
+		if _, err := pkg.FuncDecl(r[0], r[1]); err != nil {
+			x.fatal = append(x.fatal, err.Error())
+		}
+	}
+	if len(pkg.Inits()) > 0 {
+		x.fatal = append(x.fatal, fmt.Sprintf("package gen has %d init() function(s): %s", len(pkg.Inits()), pkg.FileOf(pkg.Inits()[0])))
+	}
+	for i, f := range pkg.Files {
+		for _, d := range f.Decls {
+			switch t := d.(type) {
+			case *ast.GenDecl:
+				if t.Tok != token.VAR {
+					continue
+				}
+				for _, sp := range t.Specs {
+					for _, n := range sp.(*ast.ValueSpec).Names {
+						if n.Name != "Logger" && n.Name != "_" {
+							x.fatal = append(x.fatal, "package variable "+n.Name+" in "+pkg.Names[i])
+						}
+					}
+				}
+			case *ast.FuncDecl:
+				if t.Recv != nil && len(t.Recv.List) == 1 {
+					if st, ok := t.Recv.List[0].Type.(*ast.StarExpr); ok {
+						if id, ok := st.X.(*ast.Ident); ok && id.Name == "Generate" {
+							x.fatal = append(x.fatal, "method "+t.Name.Name+" with a pointer receiver on Generate in "+pkg.Names[i])
+						}
+					}
+				}
+			}
+		}
+	}
+	if w := pkg.WritesTo("Logger"); len(w) > 0 {
+		_ = w // Logger is not part of the model; writes to it do not matter
+	}
+}
+
+// mainChecks: cmd/gogenproto is the entry point the property speaks about; it must do nothing but
+// fill a zero Generate from the flags and call Run on it once, after flag.Parse.
+func (x *xl) mainChecks(dir string) {
+	pkg, err := srcset.Load(dir, "verif")
+	if err != nil {
+		x.fatal = append(x.fatal, "cmd/gogenproto: "+err.Error())
+		return
+	}
+	if len(pkg.Inits()) > 0 {
+		x.fatal = append(x.fatal, "cmd/gogenproto has an init() function")
+	}
+	mainFn, err := pkg.FuncDecl("", "main")
+	if err != nil {
+		x.fatal = append(x.fatal, "cmd/gogenproto: "+err.Error())
+		return
+	}
+	nFuncs := 0
+	for _, f := range pkg.Files {
+		for _, d := range f.Decls {
+			if fd, ok := d.(*ast.FuncDecl); ok {
+				nFuncs++
+				_ = fd
+			}
+			if gd, ok := d.(*ast.GenDecl); ok && gd.Tok == token.VAR {
+				x.fatal = append(x.fatal, "cmd/gogenproto declares a package variable")
+			}
+		}
+	}
+	if nFuncs != 1 {
+		x.fatal = append(x.fatal, fmt.Sprintf("cmd/gogenproto declares %d functions besides/including main (expected main only)", nFuncs))
+	}
+	allowed := map[string]bool{"flagsfiller.New": true, "flag.Parse": true}
+	var gvar *ast.Object
+	runs, parsePos, runPos := 0, token.NoPos, token.NoPos
+	ast.Inspect(mainFn.Body, func(m ast.Node) bool {
+		switch t := m.(type) {
+		case *ast.CompositeLit:
+			if isSel(t.Type, "gen", "Generate") && len(t.Elts) != 0 {
+				x.fatal = append(x.fatal, "cmd/gogenproto: gen.Generate literal with fields set")
+			}
+		case *ast.AssignStmt:
+			for i, r := range t.Rhs {
+				if cl, ok := r.(*ast.CompositeLit); ok && isSel(cl.Type, "gen", "Generate") && i < len(t.Lhs) {
+					if id, ok := t.Lhs[i].(*ast.Ident); ok {
+						gvar = id.Obj
+					}
+				}
+			}
+			for _, l := range t.Lhs {
+				if se, ok := l.(*ast.SelectorExpr); ok {
+					if id, ok := se.X.(*ast.Ident); ok && gvar != nil && id.Obj == gvar {
+						x.fatal = append(x.fatal, "cmd/gogenproto assigns a field of the Generate value")
+					}
+				}
+			}
+		case *ast.CallExpr:
+			name := exprString(t.Fun)
+			switch {
+			case allowed[name]:
+				if name == "flag.Parse" {
+					parsePos = t.Pos()
+				}
+			case strings.HasSuffix(name, ".Fill") || name == "gen.Logger.Fatal" || name == "gen.Logger.Fatalf":
+			case strings.HasSuffix(name, ".Run"):
+				if se, ok := t.Fun.(*ast.SelectorExpr); ok {
+					if id, ok := se.X.(*ast.Ident); ok && gvar != nil && id.Obj == gvar {
+						runs++
+						runPos = t.Pos()
+						return true
+					}
+				}
+				x.fatal = append(x.fatal, "cmd/gogenproto calls "+name)
+			default:
+				x.fatal = append(x.fatal, "cmd/gogenproto calls "+name)
+			}
+		case *ast.GoStmt, *ast.DeferStmt, *ast.ForStmt, *ast.RangeStmt:
+			x.fatal = append(x.fatal, "cmd/gogenproto: go/defer/loop in main")
+		}
+		return true
+	})
+	if runs != 1 || !parsePos.IsValid() || runPos < parsePos {
+		x.fatal = append(x.fatal, fmt.Sprintf("cmd/gogenproto: Run is called %d time(s) on the Generate value, expected once after flag.Parse", runs))
+	}
+}
+
 func (x *xl) propagateExec() {
 	for changed := true; changed; {
 		changed = false
@@ -2075,12 +2212,25 @@ func main() {
 		*src = *repo + "/gogenproto/gen/generate.go"
 	}
 	x := &xl{fset: token.NewFileSet()}
-	f, err := parser.ParseFile(x.fset, *src, nil, parser.ParseComments)
-	if err != nil {
-		fmt.Fprintln(os.Stderr, err)
-		os.Exit(2)
+	if *repo != "" {
+		// the package as the compiler sees it: every non-test file of gogenproto/gen that matches the
+		// build context of the harness build (tag verif), not one file by name
+		pkg, err := srcset.Load(filepath.Join(*repo, "gogenproto", "gen"), "verif")
+		if err != nil {
+			fmt.Fprintln(os.Stderr, err)
+			os.Exit(2)
+		}
+		x.fset, x.files = pkg.Fset, pkg.Files
+		x.packageChecks(pkg)
+		x.mainChecks(filepath.Join(*repo, "gogenproto", "cmd", "gogenproto"))
+	} else {
+		f, err := parser.ParseFile(x.fset, *src, nil, parser.ParseComments)
+		if err != nil {
+			fmt.Fprintln(os.Stderr, err)
+			os.Exit(2)
+		}
+		x.files = []*ast.File{f}
 	}
-	x.file = f
 	x.collect()
 	x.propagateExec()
 	var b strings.Builder
@@ -2116,6 +2266,11 @@ func main() {
 		names = append(names, coqStr(fi.name))
 	}
 	b.WriteString("Definition gen_functions : list string := [" + strings.Join(names, "; ") + "].\n")
+	for i, p := range x.fatal {
+		// the package is not what the translation of its roots assumes: no tie
+		x.problems = append(x.problems, p)
+		b.WriteString(fmt.Sprintf("(* %s *)\nDefinition gen_package_problem_%d : unit := UNSUPPORTED_package_%d.\n", strings.ReplaceAll(p, "*)", "* )"), i, i))
+	}
 	if err := os.WriteFile(*out, []byte(b.String()), 0o644); err != nil {
 		fmt.Fprintln(os.Stderr, err)
 		os.Exit(2)
